@@ -836,10 +836,11 @@ def lazy_state_rule(ctx: Ctx, functions, rule: str = "LAZY") -> int:
                           if not (isinstance(a, ast.For) and a.iter is u))
             n += 1
             if len(stores) == 1 and (len(uses) > 1 or in_loop):
-                bad.append((fi, st))
+                bad.append((fi, st, "local"))
     ctx.check(not bad, rule, f"no attribute holds a one-shot iterator ({n} attribute stores inspected)",
               function=bad[0][0].qualname if bad else "*",
-              construct="an object attribute is assigned a one-shot iterator" if bad else "ok",
-              message=f"`{short(bad[0][1], 90)}`: the value can be iterated once; every later use of the object sees it empty" if bad else "",
+              construct=("a one-shot iterator is bound to a local that is consumed more than once" if bad and len(bad[0]) == 3
+                         else "an object attribute is assigned a one-shot iterator") if bad else "ok",
+              message=f"`{short(bad[0][1], 90)}`: the value can be iterated once; every later consumer sees it empty (or without the elements already taken)" if bad else "",
               file=bad[0][0].file if bad else next(iter(p.sources)), node=bad[0][1] if bad else None)
     return n
